@@ -309,9 +309,9 @@ pub proof fn lemma_wf_op_update(pre: ProtocolState, post: ProtocolState, id: u64
 
 impl ProtocolState {
 //@fn gneiss-mqtt/src/protocol.rs ProtocolState::create_operation props=C01,C10,C05,C06
-    requires old(self).wf(), opid_budget(*old(self), 1),
+    requires old(self).wf_core(), opid_budget(*old(self), 1),
         options_untaken(options), options_match_packet(options, *packet),
-    ensures final(self).wf(),
+    ensures final(self).wf_core(), old(self).wf() ==> final(self).wf(),
         r == old(self).next_operation_id, r != 0,
         !old(self).operations@.contains_key(r),       // never overwrites a tracked operation
         final(self).next_operation_id == r + 1,       // ids strictly increase with submission order
@@ -925,7 +925,8 @@ pub open spec fn queue_measure(s: ProtocolState) -> int {
 //@end
 
 impl ProtocolState {
-//@fn gneiss-mqtt/src/protocol.rs ProtocolState::compute_outbound_alias_resolution props=C17 stub
+//@fn gneiss-mqtt/src/protocol.rs ProtocolState::compute_outbound_alias_resolution props=C17
+    ensures !(packet is Publish) ==> r.alias is None && !r.skip_topic,   // only publishes are ever aliased
 //@end
 
 //@fn gneiss-mqtt/src/protocol.rs ProtocolState::update_internal_clock props=C11
@@ -1182,6 +1183,166 @@ impl ProtocolState {
         old(self).state == ProtocolStateType::Halted ==> r is Err && final(context).to_socket@ == old(context).to_socket@,
         (old(self).state == ProtocolStateType::Disconnected || old(self).state == ProtocolStateType::PendingDisconnect) ==> final(context).to_socket@ == old(context).to_socket@,
         r is Ok ==> inv(*final(self)),
+//@end
+}
+
+// =====================================================================================================
+// connection lifecycle inside the engine (C07, C11, C15, C14)
+// =====================================================================================================
+
+// C15: what each policy keeps, straight from the enum's documented meaning
+pub open spec fn policy_keeps(p: MqttPacket, policy: OfflineQueuePolicy) -> bool {
+    match policy {
+        OfflineQueuePolicy::PreserveAll => p is Subscribe || p is Unsubscribe || p is Publish,
+        OfflineQueuePolicy::PreserveAcknowledged => p is Subscribe || p is Unsubscribe || is_qos1plus_publish(p),
+        OfflineQueuePolicy::PreserveQos1PlusPublishes => is_qos1plus_publish(p),
+        OfflineQueuePolicy::PreserveNothing => false,
+    }
+}
+
+//@fn gneiss-mqtt/src/protocol.rs does_packet_pass_offline_queue_policy props=C15
+    ensures r == policy_keeps(*packet, *policy),
+//@end
+
+//@fn gneiss-mqtt/src/mqtt/connack.rs validate_connack_packet_inbound_internal props=C07 stub
+    ensures r is Ok ==> packet.receive_maximum != Some(0u16) && packet.maximum_packet_size != Some(0u32),
+//@end
+
+//@static gneiss-mqtt/src/encode.rs MAXIMUM_VARIABLE_LENGTH_INTEGER
+
+// C07: "exactly the CONNACK's values, completed with the CONNECT's values or the specification's defaults"
+pub open spec fn negotiated_spec(connect: ConnectOptions, connack: ConnackPacket, r: NegotiatedSettings) -> bool {
+    &&& r.maximum_qos == (match connack.maximum_qos { Some(q) => q, None => QualityOfService::ExactlyOnce })
+    &&& r.session_expiry_interval == (match connack.session_expiry_interval { Some(v) => v, None => match connect.session_expiry_interval_seconds { Some(v) => v, None => 0 } })
+    &&& r.receive_maximum_from_server == (match connack.receive_maximum { Some(v) => v, None => 65535 })
+    &&& r.maximum_packet_size_to_server == (match connack.maximum_packet_size { Some(v) => v, None => 268435455 })
+    &&& r.topic_alias_maximum_to_server == (match connack.topic_alias_maximum { Some(v) => v, None => 0 })
+    &&& r.server_keep_alive == (match connack.server_keep_alive { Some(v) => v, None => match connect.keep_alive_interval_seconds { Some(v) => v, None => 0 } })
+    &&& r.retain_available == (match connack.retain_available { Some(v) => v, None => true })
+    &&& r.wildcard_subscriptions_available == (match connack.wildcard_subscriptions_available { Some(v) => v, None => true })
+    &&& r.subscription_identifiers_available == (match connack.subscription_identifiers_available { Some(v) => v, None => true })
+    &&& r.shared_subscriptions_available == (match connack.shared_subscriptions_available { Some(v) => v, None => true })
+    &&& r.rejoined_session == connack.session_present
+}
+
+//@fn gneiss-mqtt/src/protocol.rs build_negotiated_settings props=C07,C09
+    ensures negotiated_spec(config.connect_options, *packet, r),
+        packet.assigned_client_identifier matches Some(id) ==> r.client_id@ == id@,
+        (packet.assigned_client_identifier is None && config.connect_options.client_id is Some) ==> r.client_id@ == config.connect_options.client_id->Some_0@,
+        (packet.assigned_client_identifier is None && config.connect_options.client_id is None && existing_settings is Some) ==> r.client_id@ == existing_settings->Some_0.client_id@,
+//@end
+
+impl ConnectOptions {
+//@fn gneiss-mqtt/src/client/config.rs ConnectOptions::to_connect_packet props=C07
+    ensures
+        // clean start chosen by the rejoin policy and the connection history
+        r.clean_start == (match self.rejoin_session_policy {
+            RejoinSessionPolicy::PostSuccess => !connected_previously,
+            RejoinSessionPolicy::Always => false,
+            RejoinSessionPolicy::Never => true,
+        }),
+        r.keep_alive_interval_seconds == (match self.keep_alive_interval_seconds { Some(v) => v, None => 0 }),
+        r.session_expiry_interval_seconds == self.session_expiry_interval_seconds,
+        r.request_response_information == self.request_response_information,
+        r.request_problem_information == self.request_problem_information,
+        r.receive_maximum == self.receive_maximum,
+        r.topic_alias_maximum == self.topic_alias_maximum,
+        r.maximum_packet_size_bytes == self.maximum_packet_size_bytes,
+        r.will_delay_interval_seconds == self.will_delay_interval_seconds,
+        r.authentication_method is None, r.authentication_data is None,
+        r.client_id is Some == self.client_id is Some, r.username is Some == self.username is Some, r.password is Some == self.password is Some,
+        r.will == self.will,
+//@end
+}
+
+impl ProtocolState {
+//@fn gneiss-mqtt/src/protocol.rs ProtocolState::operation_packet_passes_offline_queue_policy props=C15
+    ensures r == (self.state == ProtocolStateType::Connected || policy_keeps(*packet, self.config.offline_queue_policy)),
+//@end
+
+//@fn gneiss-mqtt/src/protocol.rs ProtocolState::should_retain_high_priority_operation props=C04
+    ensures r == (self.operations@.contains_key(id) && self.operations@[id].qos2_pubrel is Some),
+//@end
+
+//@fn gneiss-mqtt/src/protocol.rs ProtocolState::get_maximum_incoming_packet_size props=C03
+    ensures r == (match self.config.connect_options.maximum_packet_size_bytes { Some(v) => v, None => 268435455u32 }),
+//@end
+
+//@fn gneiss-mqtt/src/protocol.rs ProtocolState::create_connect props=C07
+    ensures *r is Connect,
+        ({
+            let c = r->Connect_0;
+            &&& c.clean_start == (match self.config.connect_options.rejoin_session_policy {
+                    RejoinSessionPolicy::PostSuccess => !self.has_connected_successfully,
+                    RejoinSessionPolicy::Always => false,
+                    RejoinSessionPolicy::Never => true })
+            &&& c.keep_alive_interval_seconds == (match self.config.connect_options.keep_alive_interval_seconds { Some(v) => v, None => 0 })
+            // a server-assigned client identifier is reused on later connections
+            &&& (self.config.connect_options.client_id is None && self.current_settings is Some) ==> (c.client_id matches Some(id) && id@ == self.current_settings->Some_0.client_id@)
+            &&& (self.config.connect_options.client_id is Some) ==> c.client_id is Some
+            &&& c.receive_maximum == self.config.connect_options.receive_maximum
+            &&& c.topic_alias_maximum == self.config.connect_options.topic_alias_maximum
+            &&& c.maximum_packet_size_bytes == self.config.connect_options.maximum_packet_size_bytes
+            &&& c.session_expiry_interval_seconds == self.config.connect_options.session_expiry_interval_seconds
+            &&& c.will == self.config.connect_options.will
+        }),
+//@end
+
+//@fn gneiss-mqtt/src/protocol.rs ProtocolState::handle_network_event_connection_opened props=C07,C11
+    requires old(self).wf(), opid_budget(*old(self), 1), context.event is ConnectionOpened,
+    ensures final(self).wf(),
+        ({
+            let pre = *old(self);
+            let post = *final(self);
+            // a connection can only be opened from Disconnected
+            &&& pre.state != ProtocolStateType::Disconnected ==> r is Err && post == (ProtocolState { state: ProtocolStateType::Halted, ..pre })
+            &&& pre.state == ProtocolStateType::Disconnected ==> {
+                    let oid = pre.next_operation_id;
+                    &&& r is Ok
+                    &&& post.state == ProtocolStateType::PendingConnack
+                    // exactly one CONNECT, ahead of everything else in the only queue served before CONNACK
+                    &&& post.operations@.contains_key(oid) && !pre.operations@.contains_key(oid) && *post.operations@[oid].packet is Connect
+                    &&& post.operations@ == pre.operations@.insert(oid, post.operations@[oid])
+                    &&& post.high_priority_operation_queue@ == seq![oid] + pre.high_priority_operation_queue@
+                    &&& post.current_operation is None && !post.pending_write_completion
+                    // the establishment deadline is armed
+                    &&& post.connack_timeout_timepoint == Some(context.event->ConnectionOpened_0.establishment_timeout)
+                    &&& post.user_operation_queue@ == pre.user_operation_queue@ && post.resubmit_operation_queue@ == pre.resubmit_operation_queue@
+                    &&& post.allocated_packet_ids@ == pre.allocated_packet_ids@ && post.pending_publish_operations@ == pre.pending_publish_operations@
+                    &&& post.pending_non_publish_operations@ == pre.pending_non_publish_operations@
+                }
+        }),
+//@end
+
+//@fn gneiss-mqtt/src/protocol.rs ProtocolState::apply_connection_closed_to_current_operation props=C15,C04,C10,C11
+    requires old(self).wf(),
+    ensures final(self).wf(), r is Ok ==> final(self).current_operation is None,
+        ({
+            let pre = *old(self);
+            let post = *final(self);
+            let has_cur = (pre.current_operation is Some) && pre.operations@.contains_key(pre.current_operation->Some_0);
+            &&& !has_cur ==> post == (ProtocolState { current_operation: None, ..pre })
+            &&& has_cur ==> {
+                    let id = pre.current_operation->Some_0;
+                    let op = pre.operations@[id];
+                    let keep = policy_keeps(*op.packet, pre.config.offline_queue_policy);
+                    let dup = (*op.packet matches MqttPacket::Publish(publish) && publish.duplicate);
+                    let rel = is_qos_publish(*op.packet, QualityOfService::ExactlyOnce) && (op.qos2_pubrel is Some);
+                    // a half-written retransmission goes back to the FRONT of the retransmission queue
+                    &&& (dup ==> post.resubmit_operation_queue@ == seq![id] + pre.resubmit_operation_queue@ && tables_unchanged(pre, post)
+                            && post.user_operation_queue@ == pre.user_operation_queue@ && post.high_priority_operation_queue@ == pre.high_priority_operation_queue@)
+                    // a half-written PUBREL stays a PUBREL (never re-queued as a fresh publish)
+                    &&& (!dup && rel ==> post.high_priority_operation_queue@ == seq![id] + pre.high_priority_operation_queue@ && tables_unchanged(pre, post)
+                            && post.user_operation_queue@ == pre.user_operation_queue@ && post.resubmit_operation_queue@ == pre.resubmit_operation_queue@)
+                    // other user operations: kept at the FRONT of the user queue iff the policy keeps their kind, else failed
+                    &&& ((*op.packet is Subscribe || *op.packet is Unsubscribe || (*op.packet is Publish && !dup && !rel)) && keep ==>
+                            post.user_operation_queue@ == seq![id] + pre.user_operation_queue@ && tables_unchanged(pre, post)
+                            && post.resubmit_operation_queue@ == pre.resubmit_operation_queue@ && post.high_priority_operation_queue@ == pre.high_priority_operation_queue@)
+                    &&& ((*op.packet is Subscribe || *op.packet is Unsubscribe || (*op.packet is Publish && !dup && !rel)) && !keep ==> removed_exactly(pre, post, id) && r is Ok)
+                    // internal packets are simply failed
+                    &&& (!(*op.packet is Subscribe || *op.packet is Unsubscribe || *op.packet is Publish) ==> removed_exactly(pre, post, id))
+                }
+        }),
 //@end
 }
 } // verus!
